@@ -5,7 +5,7 @@
    with the real doOptimize through hook VerifOptimize); Model/VM.v step1 is the
    transcription of the dispatch loop of do.go (tie: run-level correspondence). *)
 From Coq Require Import ZArith List String Bool.
-From GV Require Import GoSpec.GoPrim Gen.ValueOps_gen Gen.Tables_gen Model.PeepTypes Model.VM Model.Peephole Proofs.C02_rules.
+From GV Require Import GoSpec.GoPrim Gen.ValueOps_gen Gen.Tables_gen Model.PeepTypes Model.VM Model.Peephole Gen.Steps_gen Proofs.C02_rules Proofs.Steps_agree.
 Import ListNotations.
 Open Scope Z_scope.
 
@@ -48,3 +48,27 @@ Print Assumptions c02_guards_satisfiable.
 Theorem c02_optimizer_shape : forall code, opt_rel peephole_rules code (do_optimize peephole_rules code).
 Proof. exact do_optimize_rel'. Qed.
 Print Assumptions c02_optimizer_shape.
+
+(* the dispatch loop the rule theorem talks about IS what /repo/do.go says, for the opcodes go2v can
+   translate (Gen/Steps_gen.v is regenerated from the `exec` switch of do.go on every run): the hand
+   transcription step1 and the generated step_gen give the same step result (the text of the
+   "stuck" diagnostic for an operand stack shorter than the instruction needs is not compared).
+   An edit of one of these cases in do.go changes step_gen and breaks this theorem. *)
+Theorem c02_steps_from_source : forall grow ext_get ext_set ext_len ext_getattr ext_setattr codes pc i slots ops s r,
+  step_gen i slots ops s = Some r ->
+  sres_same r (step1 grow ext_get ext_set ext_len ext_getattr ext_setattr codes pc i slots ops s).
+Proof. exact steps_agree. Qed.
+Print Assumptions c02_steps_from_source.
+
+(* ... and the translated set covers the arithmetic, comparison, local/global and jump instructions that
+   the windows of the rules consist of (calls, containers and attributes stay hand-transcribed) *)
+Theorem c02_steps_cover : forall name, In name
+  ["codePush"; "codePop"; "codeAdd"; "codeSub"; "codeMul"; "codeDiv"; "codeMod"; "codeLt"; "codeGt"; "codeLte"; "codeGte";
+   "codeEq"; "codeNeq"; "codeBitAnd"; "codeBitOr"; "codeBitXor"; "codeBitLsh"; "codeBitRsh"; "codeIncDec"; "codeLocalIncDec";
+   "codeConvert"; "codeCast"; "codeNegate"; "codeBitComplement"; "codeNot"; "codeZero"; "codeAnd"; "codeOr";
+   "codeGlobalSet"; "codeGlobalZero"; "codeGlobalGet"; "codeConst"; "codeLocalGet"; "codeLocalSet"; "codeLocalZero";
+   "codeReturn"; "codeJump"; "codeJumpFalse"; "codeJumpTrue"; "codeLocalAdd"; "codeLocalSub"; "codeLocalMul"; "codeLocalDiv"; "codePass"]%string ->
+  In name step_gen_opcodes /\
+  forall i slots ops s, icode i = C name -> step_gen i slots ops s <> None.
+Proof. exact steps_cover. Qed.
+Print Assumptions c02_steps_cover.
